@@ -41,6 +41,17 @@ CLAIMED = {
         ref="DESIGN.md §5 C19",
         note=NOTE + "Rust's Unicode character classes are a parameter of the theorems; the driver instantiates them for ASCII + Latin-1. "
                     "Bounded output growth is implied by termination within |s|+1 iterations per loop; not stated separately."),
+    "C15": dict(
+        text=("Proof: for every window size W > 0 and any number of sorted disjoint streams the merged output carries at every "
+              "base the sum of the inputs (nothing where it is zero) and is sorted, disjoint, non-empty, non-zero; gap filling is a "
+              "gapless tiling that keeps every value and adds only zeros; the tool's clip/adjust/threshold stage per base; reading "
+              "[0,len) hands the merger every stored value (and [1,len) provably loses base 0); the output-name detection accepts "
+              "every documented spelling. Correspondence: merge_sections_many / fill / fill_start_to_end in-process vs the model on "
+              "streams crossing the 50,000-base windows, and the built bigwigmerge binary over a clip/adjust/threshold grid, "
+              "all documented output names, bedGraph vs bigWig output."),
+        ref="DESIGN.md §5 C15",
+        note=NOTE + "Exact integer arithmetic in the model; the code's f32 sums are exact on the integer-valued data the check drives it with. "
+                    "clap argument parsing and float printing are not modelled (outputs are compared numerically)."),
 }
 
 PENDING = ["C01", "C02", "C03", "C04", "C05", "C06", "C07", "C08", "C09", "C10", "C11", "C13", "C14", "C15", "C16",
